@@ -25,6 +25,31 @@ def targs_of(ta_list):
     return d
 
 
+def control_rule(cc):
+    """the rule a control class is instantiated for: the first argument of the last template argument list of Control< Rule >, also for controls that
+    are member templates ( state_control< normal >::control< Rule >, must_if< Errors >::control< Rule > ); character literals may contain < > , '"""
+    s = cc.get('s') or ''
+    if not s.endswith('>'): return (cc['a'][0].get('s') if cc.get('a') else None)
+    # forward scan: positions of top-level '<' that open an argument list, with character literals skipped
+    depth = 0; i = 0; opens = []; n = len(s); commas = {}
+    while i < n:
+        ch = s[i]
+        if ch == "'":
+            j = i + 1
+            while j < n and not (s[j] == "'" and s[j - 1] != '\\' or (s[j] == "'" and s[j - 2:j] == '\\\\')): j += 1
+            i = j + 1; continue
+        if ch == '<':
+            if depth == 0: opens.append(i); commas[i] = []
+            depth += 1
+        elif ch == '>': depth -= 1
+        elif ch == ',' and depth == 1 and opens: commas[opens[-1]].append(i)
+        i += 1
+    if not opens: return None
+    o = opens[-1]
+    end = commas[o][0] if commas[o] else n - 1
+    return s[o + 1:end].strip()
+
+
 class FrameMonitor(BaseMonitor):
     def desc(self, ex, v, st):
         if isinstance(v, Obj):
@@ -73,7 +98,7 @@ class FrameMonitor(BaseMonitor):
             vals = [ex.argval(a, st) for a in av]
             descs = tuple(self.desc(ex, v, st) for v in vals)
             cc = e['cc']
-            who = cc['a'][0].get('s') if cc.get('a') else None
+            who = control_rule(cc)
             p = None
             for a, o in st.heap.items():
                 if isinstance(o, dict) and o.get('__main'): p = o['m_current'].pos
@@ -219,7 +244,7 @@ def check_fn(db, fn, never_false=frozenset()):
     probs = []; ncalls = 0
     kind = STATE_RULES.get(tn)
     if scalar_states(fn):
-        return [], sum(1 for (evs, ek, v) in out for e in evs if isinstance(e, tuple) and e[0] == 'call'), len(out)
+        return [], sum(1 for (evs, ek, v) in out for e in evs if isinstance(e, tuple) and e[0] == 'call'), out
     released = set(e[1] for (evs, ek, v) in out for e in evs if isinstance(e, tuple) and e[0] == 'release')
     for (evs, exit_kind, val), n in out.items():
         calls = [e for e in evs if isinstance(e, tuple) and e[0] == 'call']
